@@ -88,8 +88,7 @@ theorem access_natCast (N : Nat) (f : Nat → K) (p : Nat) :
   unfold access
   by_cases h : p < N
   · simp [h]
-  · have h' : ¬ ((0 : Int) ≤ (p : Int) ∧ (p : Int) < (N : Int)) := by omega
-    simp [h, h']
+  · simp [h]
 
 /-- a weighted accumulation `acc + w i * u i` is linear in `u` -/
 theorem foldl_linear (l : List Nat) (w u v : Nat → K) (a b z1 z2 : K) :
@@ -248,5 +247,13 @@ theorem haarRow_energy (N : Nat) (hN : N % 2 = 0) (f : Nat → K) :
   rw [hm] at h
   rw [l, h]
   ring
+
+/-- a linear row kernel commutes with division by a scalar -/
+theorem scale_of_linear (T : Nat → (Nat → K) → Nat → K)
+    (hT : ∀ N a b f g x, T N (fun i => a * f i + b * g i) x = a * T N f x + b * T N g x)
+    (N : Nat) (c : K) (f : Nat → K) (x : Nat) : T N (fun i => f i / c) x = T N f x / c := by
+  have e : (fun i => f i / c) = fun i => (1 / c) * f i + 0 * f i := by funext i; ring
+  rw [e, hT]; ring
+
 
 end Mahotas.C17
